@@ -207,11 +207,9 @@ def _binary(name):
             Y = c.tt()
             return Call(name, fn, [Y, Y])
         if k == 'tt_num':
-            return Call(name, fn, [c.tt(), _pick(c, [float(c.rng.standard_normal()), 2, -1])])
-        if k == 'num_tt' and name != 'sub':
-            return Call(name, fn, [_pick(c, [float(c.rng.standard_normal()), 3, -2]), c.tt()])
+            return Call(name, fn, [c.tt(), _pick(c, [float(c.rng.standard_normal()), 2, -1, 0, 0.0, 1.0])])
         if k == 'num_tt':
-            return Call(name, fn, [c.tt(), 2])
+            return Call(name, fn, [_pick(c, [float(c.rng.standard_normal()), 3, -2, 0, 0.0, 1]), c.tt()])
         return Call(name, fn, [2.0, 3], passthrough=True)
     return build
 
@@ -995,7 +993,19 @@ def e_sample_tt(c):
 @entry(weight=2)
 def e_sample_func(c):
     n = _eqshape(c)
-    A = c.own(c.tt_shape(n, 2))
+    A = c.tt_shape(n, 2)
+    if c.rng.random() < 0.3:
+        # cores prepared by the caller as the function itself would prepare them ("inner usage" flag, documented)
+        P = [G.copy() for G in A]
+        for G in P:
+            G[:, 0, :] *= np.sqrt(2.)
+        for k in range(len(P) - 1, 0, -1):
+            r1, nk, r2 = P[k].shape
+            Q, R = np.linalg.qr(P[k].reshape(r1, nk * r2).T)
+            P[k] = Q.T.reshape(-1, nk, r2)
+            P[k - 1] = np.einsum('aib,bc->aic', P[k - 1], R.T)
+        return Call('sample_func', teneva.sample_func, [c.own(P)], {'seed': c.seed(), 'cores_are_prepared': True}, seed_kw='seed', may_fail=True)
+    A = c.own(A)
     return Call('sample_func', teneva.sample_func, [A], {'seed': c.seed()}, seed_kw='seed', may_fail=True)
 
 
@@ -1092,6 +1102,14 @@ def e_ANOVA(c):
         obj.sample()
         after = obj.cores(r, noise=0.0)
         # (values are compared, not bytes: 0 * normal() is +0.0 or -0.0 depending on the draw)
+        # a sample drawn after earlier calls with other options must equal the sample a fresh object draws from the same generator state
+        o1 = teneva.ANOVA(I, y, order, seed=5)
+        o1.sample()
+        o1.sample(eps=1e-3)
+        o1.rand = np.random.default_rng(77)
+        o2 = teneva.ANOVA(I, y, order, seed=77)
+        if list(o1.sample(with_square=True)) != list(o2.sample(with_square=True)):
+            return 'ANOVA.sample(with_square=True) after earlier sample() calls with other options differs from a fresh object with the same generator state'
         if len(fresh) != len(after) or any(p_.shape != q_.shape or not np.array_equal(p_, q_) for p_, q_ in zip(fresh, after)):
             return 'ANOVA.cores(noise=0) after two sample() calls differs from the cores of a freshly built object'
         return None
@@ -1225,6 +1243,8 @@ def _als_data(c):
     I = np.vstack([I, cover])
     I = I[c.rng.permutation(len(I))]
     y = c.rng.standard_normal(len(I))
+    if c.rng.random() < 0.05:
+        y[int(c.rng.integers(0, len(y)))] = np.nan          # rejected by the solver with an exception
     return I, y
 
 
